@@ -67,7 +67,11 @@ func zzGetScenario(k int) {
 	for i := 0; i < n; i++ {
 		id := string(rune('0' + i))
 		as, a := zzDigits("aid"+id, 1)
-		is, c := zzDigits("iid"+id, 1+verif.Choice("iidlen"+id, 2))
+		iidLen := 1
+		if i == 0 || k <= 2 {
+			iidLen = 1 + verif.Choice("iidlen"+id, 2) // (with three entries only the first has a two-digit iid)
+		}
+		is, c := zzDigits("iid"+id, iidLen)
 		aids[i], iids[i] = a, c
 		if i > 0 {
 			ids += ","
